@@ -265,9 +265,12 @@ func (handler *HeadersHandler) Handle(ctx context.Context, m wire.Message) ([]wi
 			continue
 		}
 
-		// Ignore unknown blocks as they might happen when there is a reorg.
+		// Unknown blocks can happen when there is a reorg, for example back onto blocks that were
+		// reverted here. The in sync status is cleared so that headers are requested again from the
+		// blocks that are known and the way to this header is found.
 		logger.Verbose(ctx, "Unknown header : %s", hash)
 		logger.Verbose(ctx, "Previous hash : %s", header.PrevBlock)
+		handler.state.ClearInSync()
 		return nil, nil //errors.New(fmt.Sprintf("Unknown header : %s", hash))
 	}
 
